@@ -104,3 +104,35 @@ pub fn drv_c12_marking_worker(task: &mut MarkingTask, me: usize) {
     task.run();
     verif_terminated(me);
 }
+
+// ---------------------------------------------------------------------------------------------
+// Variant "copy": the worker loop is the REAL `CopyTask::{trace_gray_objects, trace_young_object,
+// trace_promoted_object, push, push_item, defensive_push, pop}` from gc/swiper/minor.rs.
+// Environment: segment/deque/injector operations (python models), `is_young` (adversarial),
+// `Object::visit_reference_fields` (redirected to drv_c12_visit_fields) and `evacuate_object`
+// (redirected to drv_c12_evacuate: either another worker forwarded the object first, or this
+// worker copies it and pushes the copy with the real `push`).
+pub struct CopyTask;
+
+impl CopyTask {
+    #[inline(never)]
+    pub fn trace_gray_objects(&mut self) { unimplemented!() }
+    #[inline(never)]
+    pub fn push(&mut self, addr: Addr) { unimplemented!() }
+}
+
+stub! {
+    fn verif_copied_by_me() -> bool;
+}
+
+pub fn drv_c12_evacuate(task: &mut CopyTask, addr: Addr) -> Addr {
+    if verif_copied_by_me() {
+        task.push(Addr(addr.0));
+    }
+    addr
+}
+
+pub fn drv_c12_copy_worker(task: &mut CopyTask, me: usize) {
+    task.trace_gray_objects();
+    verif_terminated(me);
+}
